@@ -54,7 +54,7 @@ def run_sib(rec, variant):
     import lena.core
     import lena.structures as ls
     dim = len(rec["edges"])
-    edges = bl.py_edges(rec["edges"], False)
+    edges = bl.in_form(bl.py_edges(rec["edges"], False), rec.get("form", "l"))
     given_edges = copy.deepcopy(edges)
     style = 0 if dim == 1 else (variant + len(rec["flow"]) + rec["cut"]) % 3
     av = bl.arg_var(1) if dim == 1 else bl.arg_var2(style)
@@ -82,7 +82,7 @@ def run_sib(rec, variant):
             computes.append(consume(sib.compute()))
     if any(t.ids for t in template):
         problems.append("the analysis object given to the constructor is filled itself")
-    if lists(given_edges) != lists(edges):
+    if given_edges != edges or type(given_edges) is not type(edges):
         problems.append("SplitIntoBins changes the edges it was given")
     if av.var_context != var_before:
         problems.append("a consumer's write into a yielded context reaches the argument variable's var_context")
@@ -289,6 +289,8 @@ def check_maps(rec, out, edges, dim, worst, size):
 
 def replay(ctx, rec, n, worst):
     size = (len(rec["flow"]), len(core.canon(rec["edges"])), core.canon([rec["edges"], rec["flow"], rec["kind"], rec["cut"]]))
+    if rec["form"] != "l":
+        size = (size[0], size[1] + 1, size[2])          # witnesses with plain lists are preferred
     for variant in ((n % 2, 2 + n % 2) if n % 5 == 0 else (n % 4,) if n % 4 < 2 else (n % 2,)):
         where = "run" if variant >= 2 else "fill/compute"
         try:
@@ -310,7 +312,7 @@ def replay(ctx, rec, n, worst):
             check_iter(rec, out, edges, dim, worst, size, style)
             if n % 3 == 0 or len(rec["flow"]) <= 1:
                 check_maps(rec, out, edges, dim, worst, size)
-    ctx.case(["sib", rec["edges"], rec["flow"], rec["kind"], rec["cut"]], nontrivial=len(rec["flow"]) > 0)
+    ctx.case(["sib", rec["edges"], rec["form"], rec["flow"], rec["kind"], rec["cut"]], nontrivial=len(rec["flow"]) > 0)
 
 
 # ------------------------------------------------------------------ second oracle: real analyses
@@ -350,7 +352,7 @@ def second_oracle(ctx, rec, worst):
     import lena.core
     import lena.structures as ls
     dim = len(rec["edges"])
-    edges = bl.py_edges(rec["edges"], False)
+    edges = bl.in_form(bl.py_edges(rec["edges"], False), rec.get("form", "l"))
     cells = bl.cell_indices(rec["edges"])
     size = (len(rec["flow"]), len(core.canon(rec["edges"])), core.canon([rec["edges"], rec["flow"]]))
     for name, mk in sorted(real_analyses().items()):
@@ -481,8 +483,10 @@ def record_runs(ctx, rnd, n, worst):
         hs = [rnd.random() < 0.7 for _ in coords]
         ps = [h or rnd.random() < 0.4 for h in hs]          # some values are (data, {}) pairs
         redges, rcoords = bl.rank_abstract(edges, coords)
-        rec = {"edges": redges, "kind": kind, "flow": [{"x": c, "h": h, "p": p} for c, h, p in zip(rcoords, hs, ps)]}
-        real_edges = edges[0] if dim == 1 else edges
+        form = rnd.choice(["l", "l", "t"] if dim == 1 else ["l", "l", "t", "lt", "tl"])
+        rec = {"edges": redges, "form": form, "kind": kind,
+               "flow": [{"x": c, "h": h, "p": p} for c, h, p in zip(rcoords, hs, ps)]}
+        real_edges = bl.in_form(edges[0] if dim == 1 else edges, form)
         av = bl.arg_var(1) if dim == 1 else bl.arg_var2(0)
         values = []
         for i, (c, h, p) in enumerate(zip(coords, hs, ps)):
@@ -538,7 +542,7 @@ def make_demo(recs):
     """Records for the binding demonstration, taken from behaviours of the specification itself."""
     demo = []
     for r in reversed(recs[-5000:]):
-        d = {"edges": r["edges"], "kind": r["kind"], "flow": r["flow"], "hists": r["hists"],
+        d = {"edges": r["edges"], "form": r["form"], "kind": r["kind"], "flow": r["flow"], "hists": r["hists"],
              "iter": [c["e"] for c in r["iter"]], "hctx": r["hctx"], "vctx": r["vctx"]}
         if corrupt(d) is not None:          # a record in which a value can be moved to the next cell
             demo.append(d)
@@ -565,7 +569,7 @@ def run(ctx):
     seen = set()
     for n, rec in enumerate(recs):
         replay(ctx, rec, n, worst)
-        key = core.canon([rec["edges"], rec["flow"]])
+        key = core.canon([rec["edges"], rec["form"], rec["flow"]])
         if key not in seen and n % (2 if ctx.thorough else 3) == 0:
             seen.add(key)
             second_oracle(ctx, rec, worst)
@@ -591,7 +595,8 @@ def run(ctx):
     f_demo.result()
     demo_pool.shutdown()
     return ctx.finish(
-        rule="S2C: every scenario of the bounded model (1-d edges with 1-3 cells, 2-d 2x2 / 2x1 / 1x3; flows with "
+        rule="S2C: every scenario of the bounded model (1-d edges with 1-3 cells, 2-d 2x2 / 2x1 / 1x3, written as lists or "
+             "tuples at either level; flows with "
              "coordinates below, on every edge, inside every cell and above; eight inner analyses) on the real "
              "SplitIntoBins (fill/compute and run), IterateBins and MapBins; second oracle: lena's own accumulators "
              "against a private copy on the sub-flows routed by the specification; non-trivial = flow not empty; "
